@@ -107,8 +107,13 @@ func runC11(c *Check) {
 		}
 	}
 	// R4b: names are simplified before matching
+	seenFn := map[*ssa.Function]bool{}
 	for _, f := range []*ssa.Function{prune, pruneFrom} {
-		forEachFuncAndAnon(f, func(g *ssa.Function) {
+		for _, g := range withHelpers(f, 2) {
+			if seenFn[g] {
+				continue
+			}
+			seenFn[g] = true
 			for _, b := range g.Blocks {
 				for _, ins := range b.Instrs {
 					call, ok := ins.(*ssa.Call)
@@ -128,7 +133,7 @@ func runC11(c *Check) {
 					}
 				}
 			}
-		})
+		}
 	}
 	c.Floor("C11-R4", 5)
 	c.scanDirections(prune, pruneFrom)
@@ -515,8 +520,13 @@ func (c *Check) pruneShape(prune, pruneFrom *ssa.Function) {
 	p := c.P
 	// ---- R6
 	nMemo := 0
+	seenMemoFn := map[*ssa.Function]bool{}
 	for _, root := range []*ssa.Function{prune, pruneFrom} {
-		forEachFuncAndAnon(root, func(f *ssa.Function) {
+		for _, f := range withHelpers(root, 2) {
+			if seenMemoFn[f] {
+				continue
+			}
+			seenMemoFn[f] = true
 			// the memo table: a map looked up with comma-ok whose hit value is returned
 			for _, b := range f.Blocks {
 				for _, ins := range b.Instrs {
@@ -527,7 +537,7 @@ func (c *Check) pruneShape(prune, pruneFrom *ssa.Function) {
 					isMemo := false
 					for _, b2 := range f.Blocks {
 						for _, i2 := range b2.Instrs {
-							if lk, ok := i2.(*ssa.Lookup); ok && lk.CommaOk && sameCellOrValue(lk.X, mu.Map) {
+							if lk, ok := i2.(*ssa.Lookup); ok && lk.CommaOk && (sameCellOrValue(lk.X, mu.Map) || sameMapRef(lk.X, mu.Map)) {
 								isMemo = true
 							}
 						}
@@ -545,7 +555,7 @@ func (c *Check) pruneShape(prune, pruneFrom *ssa.Function) {
 						for i := from; i < len(b.Instrs); i++ {
 							switch x := b.Instrs[i].(type) {
 							case *ssa.MapUpdate:
-								if sameCellOrValue(x.Map, mu.Map) {
+								if sameCellOrValue(x.Map, mu.Map) || sameMapRef(x.Map, mu.Map) {
 									return
 								}
 							case *ssa.Return:
@@ -596,14 +606,27 @@ func (c *Check) pruneShape(prune, pruneFrom *ssa.Function) {
 					}
 				}
 			}
-		})
+		}
 	}
 	if nMemo == 0 {
 		c.undecided("C11-R6", "memo", p.relFile(prune.Pos()), "no memoised match function found in Prune")
 	}
 	// ---- R7
 	nFlag := 0
+	// the per-sample scan may be written in Prune's sample loop or in a helper called from it
+	outerDepth := map[*ssa.Function]int{prune: 0}
 	for _, b := range prune.Blocks {
+		for _, ins := range b.Instrs {
+			if h := helperCallee(prune, ins); h != nil && nestingDepth(b) >= 1 {
+				outerDepth[h] = 1
+			}
+		}
+	}
+	for _, b := range helperBlocks(prune, 1) {
+		outer, known := outerDepth[b.Parent()]
+		if !known {
+			continue
+		}
 		for _, ins := range b.Instrs {
 			ph, ok := ins.(*ssa.Phi)
 			if !ok {
@@ -619,7 +642,7 @@ func (c *Check) pruneShape(prune, pruneFrom *ssa.Function) {
 					isHdr = true
 				}
 			}
-			if !isHdr || nestingDepth(b) < 2 {
+			if !isHdr || nestingDepth(b)+outer < 2 {
 				continue
 			}
 			nFlag++
